@@ -153,7 +153,9 @@ def values():
             NO_RETURN_VALUE, UNINITIALIZED_VALUE, MultiValuedValue([KnownValue(1), TypedValue(str), TypeVarValue(T)]), AnnotatedValue(TypedValue(int), [CustomCheckExtension(CustomCheck())]),
             AnnotatedValue(MultiValuedValue([TypedValue(int), KnownValue(None)]), []), CallableValue(sig), CallableValue(Signature.make([ELLIPSIS_PARAM], TypeVarValue(T))),
             NewTypeValue(NT), UnboundMethodValue("append", Composite(TypedValue(list))), UnboundMethodValue("nope", Composite(KnownValue(1)), "secondary"),
-            DictIncompleteValue(dict, [KVPair(KnownValue("k"), TypedValue(int)), KVPair(TypedValue(str), TypeVarValue(T), is_many=True, is_required=False)])]
+            DictIncompleteValue(dict, [KVPair(KnownValue("k"), TypedValue(int)), KVPair(TypedValue(str), TypeVarValue(T), is_many=True, is_required=False)]),
+            MultiValuedValue([KnownValue(i) for i in range(12)]), MultiValuedValue([KnownValue(c) for c in "abcdefghijkl"] + [KnownValue(None)]), KnownValue({}), KnownValue({1, 2}),
+            KnownValue((1, [2]))]
     return base, {T: TypedValue(int), U: KnownValue(True), W: TypedValue(str)}
 
 
